@@ -243,40 +243,90 @@ Proof. destruct a; simpl; [apply Z.eqb_refl|apply String.eqb_refl]. Qed.
 Lemma labels_eqb_refl l : labels_eqb l l = true.
 Proof. induction l as [|a r IH]; simpl; [reflexivity|]. rewrite label_eqb_refl, IH. reflexivity. Qed.
 
-Lemma from_to_dict_cols idx m : WF_meta (length idx) m ->
-  map (fun ckv : string * list (label * mval) => (fst ckv, map snd (snd ckv))) (to_dict idx m) = m.
+(* label equality is decidable by label_eqb *)
+Lemma label_eqb_eq a b : label_eqb a b = true <-> a = b.
 Proof.
-  intros H. unfold to_dict. rewrite map_map. induction H as [|[c vs] r Hc Hr IH]; simpl; [reflexivity|].
+  destruct a as [x|x], b as [y|y]; simpl; split; intros H; try discriminate.
+  - apply Z.eqb_eq in H. subst. reflexivity.
+  - inversion H. apply Z.eqb_refl.
+  - apply String.eqb_eq in H. subst. reflexivity.
+  - inversion H. apply String.eqb_refl.
+Qed.
+
+(* a Python dict built from pairs with pairwise distinct keys is the list of pairs itself *)
+Lemma dict_set_fresh k v d : ~ In k (map fst d) -> dict_set k v d = d ++ [(k, v)].
+Proof.
+  induction d as [|[k' v'] r IH]; simpl; intros H; [reflexivity|].
+  destruct (label_eqb k k') eqn:E.
+  - apply label_eqb_eq in E. subst. exfalso. apply H. left. reflexivity.
+  - rewrite IH; [reflexivity|]. intros Hin. apply H. right. exact Hin.
+Qed.
+Lemma py_dict_acc l : forall acc, NoDup (map fst (acc ++ l)) ->
+  fold_left (fun d (kv : label * mval) => dict_set (fst kv) (snd kv) d) l acc = acc ++ l.
+Proof.
+  induction l as [|[k v] r IH]; intros acc H; simpl.
+  - rewrite app_nil_r. reflexivity.
+  - rewrite dict_set_fresh.
+    + rewrite IH; rewrite <- app_assoc; [reflexivity|exact H].
+    + rewrite map_app in H. apply NoDup_remove_2 in H. intros Hin. apply H. apply in_or_app. left. exact Hin.
+Qed.
+Lemma py_dict_nodup l : NoDup (map fst l) -> py_dict l = l.
+Proof. intros H. unfold py_dict. rewrite py_dict_acc; [reflexivity|exact H]. Qed.
+
+(* the dict of a column whose index has no repeated label: index label -> cell, in index order *)
+Definition to_dict_raw (idx : list label) (m : mcols) : mdict := map (fun cv => (fst cv, combine idx (snd cv))) m.
+Lemma to_dict_nodup idx m : NoDup idx -> WF_meta (length idx) m -> to_dict idx m = to_dict_raw idx m.
+Proof.
+  intros Hn H. unfold to_dict, to_dict_raw. apply map_ext_in. intros [c vs] Hin.
+  unfold WF_meta in H. rewrite Forall_forall in H. specialize (H _ Hin). simpl in *.
+  rewrite py_dict_nodup; [reflexivity|]. rewrite map_fst_combine by lia. exact Hn.
+Qed.
+
+Lemma from_to_dict_cols idx m : WF_meta (length idx) m ->
+  map (fun ckv : string * list (label * mval) => (fst ckv, map snd (snd ckv))) (to_dict_raw idx m) = m.
+Proof.
+  intros H. unfold to_dict_raw. rewrite map_map. induction H as [|[c vs] r Hc Hr IH]; simpl; [reflexivity|].
   simpl in Hc. rewrite map_snd_combine by lia. f_equal. apply IH.
 Qed.
 
-Lemma set_info_to_dict idx m : WF_meta (length idx) m -> m <> [] -> set_info idx (to_dict idx m) = Some m.
+Lemma set_info_to_dict idx m : WF_meta (length idx) m -> m <> [] -> set_info idx (to_dict_raw idx m) = Some m.
 Proof.
   intros H Hne. unfold set_info, from_dict.
   pose proof (from_to_dict_cols idx m H) as Hm.
-  assert (Hi : forall ckv, In ckv (to_dict idx m) -> map fst (snd ckv) = idx).
-  { intros ckv Hin. unfold to_dict in Hin. apply in_map_iff in Hin. destruct Hin as [[c vs] [<- Hin]]. simpl.
+  assert (Hi : forall ckv, In ckv (to_dict_raw idx m) -> map fst (snd ckv) = idx).
+  { intros ckv Hin. unfold to_dict_raw in Hin. apply in_map_iff in Hin. destruct Hin as [[c vs] [<- Hin]]. simpl.
     unfold WF_meta in H. rewrite Forall_forall in H. specialize (H _ Hin). simpl in H. apply map_fst_combine. lia. }
   rewrite Hm.
-  assert (E : match to_dict idx m with [] => [] | ckv :: _ => map fst (snd ckv) end = idx).
-  { destruct (to_dict idx m) as [|ckv r] eqn:Et.
+  assert (E : match to_dict_raw idx m with [] => [] | ckv :: _ => map fst (snd ckv) end = idx).
+  { destruct (to_dict_raw idx m) as [|ckv r] eqn:Et.
     - destruct m; [contradiction|discriminate].
     - apply Hi. left. reflexivity. }
   rewrite E, labels_eqb_refl. simpl.
-  replace (forallb (fun ckv : string * list (label * mval) => labels_eqb (map fst (snd ckv)) idx) (to_dict idx m)) with true; [reflexivity|].
+  replace (forallb (fun ckv : string * list (label * mval) => labels_eqb (map fst (snd ckv)) idx) (to_dict_raw idx m)) with true; [reflexivity|].
   symmetry. apply forallb_forall. intros ckv Hin. rewrite (Hi _ Hin). apply labels_eqb_refl.
 Qed.
 
 Lemma to_dict_nil idx m : to_dict idx m = [] -> m = [].
 Proof. destruct m; [reflexivity|discriminate]. Qed.
 
-(* the metadata step of all three readers, on a file whose "_metadata" entry is to_dict idx m *)
-Lemma meta_roundtrip idx m : WF_meta (length idx) m ->
+(* the metadata step of all three readers, on a file whose "_metadata" entry is to_dict idx m; the index has no
+   repeated label (always so for an IntervalSet and a TsGroup; for a TsdFrame: no repeated column label) *)
+Lemma meta_roundtrip idx m : NoDup idx -> WF_meta (length idx) m ->
   match to_dict idx m with [] => Some [] | _ :: _ => set_info idx (to_dict idx m) end = Some m.
 Proof.
-  intros H. destruct (to_dict idx m) eqn:E.
+  intros Hn H. destruct (to_dict idx m) eqn:E.
   - apply to_dict_nil in E. subst. reflexivity.
-  - rewrite <- E. apply set_info_to_dict; [assumption|]. intros ->. discriminate.
+  - rewrite <- E. rewrite to_dict_nodup by assumption. apply set_info_to_dict; [assumption|]. intros ->. discriminate.
+Qed.
+
+Lemma NoDup_map_LInt l : NoDup l -> NoDup (map LInt l).
+Proof.
+  induction 1 as [|x r Hx Hr IH]; simpl; constructor; [|exact IH].
+  intros Hin. apply in_map_iff in Hin. destruct Hin as [y [E Hy]]. inversion E; subst. contradiction.
+Qed.
+Lemma NoDup_seqZ n : NoDup (seqZ n).
+Proof.
+  unfold seqZ. apply FinFun.Injective_map_NoDup; [|apply seq_NoDup]. intros a b E. apply Nat2Z.inj. exact E.
 Qed.
 
 (* ================================================================================================ *)
@@ -370,14 +420,15 @@ Section RoundTrip.
       induction H as [|l r Hl Hr IH]; simpl; [reflexivity|]. rewrite Hl. exact IH.
   Qed.
 
-  Theorem roundtrip_frame x : WF_frame x -> load (save argsort (OFrame x)) = Some (OFrame x).
+  Theorem roundtrip_frame x : WF_frame x -> unique_labels_or_no_meta x -> load (save argsort (OFrame x)) = Some (OFrame x).
   Proof.
-    intros (H & Hl & Hh & Hm). rewrite save_frame_eq. destruct x as [t v dt sup cols meta]. simpl in *.
+    intros (H & Hl & Hh & Hm) Hu. unfold unique_labels_or_no_meta in Hu. rewrite save_frame_eq. destruct x as [t v dt sup cols meta]. simpl in *.
     rewrite load_frame_eq.
     assert (Hc : canonical sup) by (destruct H as (_ & _ & Hc & _); exact Hc).
     rewrite mk_iset_id by assumption. rewrite ctor_rows_id by assumption.
     rewrite cast_cols_homogeneous by assumption. rewrite Nat.eqb_refl. cbv zeta.
-    rewrite meta_roundtrip by assumption. reflexivity.
+    destruct Hu as [Hu|Hu]; [rewrite meta_roundtrip by assumption; reflexivity|].
+    subst meta. reflexivity.
   Qed.
 
   Lemma save_iset_eq x : save argsort (OIset x) =
@@ -398,7 +449,7 @@ Section RoundTrip.
     rewrite load_iset_eq. rewrite mk_iset_id by assumption. cbv zeta.
     assert (Hlen : length (map LInt (seqZ (length iv))) = length iv).
     { unfold seqZ. rewrite !map_length, seq_length. reflexivity. }
-    rewrite meta_roundtrip by (rewrite Hlen; assumption). reflexivity.
+    rewrite meta_roundtrip; [reflexivity|apply NoDup_map_LInt, NoDup_seqZ|rewrite Hlen; assumption].
   Qed.
 End RoundTrip.
 
@@ -556,7 +607,7 @@ Section GroupCore.
     intros (Hinc & Hc & Hmem & Hmeta) ->. unfold finish. rewrite sequence_some.
     rewrite nodupb_increasing by assumption. simpl negb. cbv iota zeta.
     rewrite sort_keys_increasing by assumption.
-    rewrite meta_roundtrip by (rewrite !map_length; assumption).
+    rewrite meta_roundtrip; [|apply NoDup_map_LInt, increasing_NoDup; assumption|rewrite !map_length; assumption].
     destruct g; reflexivity.
   Qed.
 
@@ -771,7 +822,45 @@ Proof.
   - vm_compute. discriminate.
 Qed.
 
-(* (c) outside the quantifier (recorded, not claimed): mixed int/str column labels are cast to str on save *)
+(* (c) a TsdFrame with a repeated column label AND a metadata column: `_metadata.to_dict()` keeps one entry per distinct
+       label, the DataFrame rebuilt on load has a shorter index than the frame has columns, set_info raises
+       ("Metadata index does not match").  All the invariants of WF_frame hold; only the labels repeat. *)
+Definition dup_label_frame : frame :=
+  {| f_t := [1; 2; 3]; f_v := [[1; 1]; [1; 1]; [1; 1]]; f_dt := DFloat; f_sup := [(1, 3)];
+     f_cols := [LStr "a"; LStr "a"]; f_meta := [("m", [MInt 1; MInt 2])] |}.
+
+Theorem frame_duplicate_labels_refuted :
+  WF_frame dup_label_frame
+  /\ to_dict (f_cols dup_label_frame) (f_meta dup_label_frame) = [("m", [(LStr "a", MInt 2)])]
+  /\ forall argsort, load (save argsort (OFrame dup_label_frame)) = None.
+Proof.
+  split; [|split].
+  - unfold WF_frame, WF_series, dup_label_frame. simpl.
+    repeat split; try lia; try discriminate; try (repeat constructor; simpl; try lia; reflexivity).
+  - vm_compute. reflexivity.
+  - intros argsort. vm_compute. reflexivity.
+Qed.
+
+(* (d) a series all of whose timestamps coincide, built without a time support: its default support
+       IntervalSet(t0, t0) is empty while the samples stay (the zero-span quirk of the constructor), so the object
+       violates only the `in_sup` part of WF_series.  save writes empty start / end arrays, and the constructor
+       re-entered on load restricts the samples to that empty support: every sample is lost. *)
+Definition zero_span_ts : ts := {| ts_t := [5]; ts_sup := [] |}.
+Definition zero_span_tsd : tsd := {| d_t := [3; 3; 3]; d_v := [[0]; [1]; [2]]; d_shape := []; d_dt := DFloat; d_sup := [] |}.
+
+Theorem zero_span_default_support_refuted :
+  (sortedZ (ts_t zero_span_ts) /\ canonical (ts_sup zero_span_ts) /\ ts_t zero_span_ts <> []
+   /\ forall argsort, load (save argsort (OTs zero_span_ts)) = Some (OTs {| ts_t := []; ts_sup := [] |}))
+  /\ (sortedZ (d_t zero_span_tsd) /\ canonical (d_sup zero_span_tsd) /\ length (d_v zero_span_tsd) = length (d_t zero_span_tsd)
+      /\ forall argsort, load (save argsort (OTsd zero_span_tsd))
+                         = Some (OTsd {| d_t := []; d_v := []; d_shape := []; d_dt := DFloat; d_sup := [] |})).
+Proof.
+  split; (split; [simpl; repeat split; try lia; repeat constructor; simpl; lia|]);
+    (split; [simpl; repeat constructor|]); (split; [simpl; try discriminate; reflexivity|]);
+    intros argsort; vm_compute; reflexivity.
+Qed.
+
+(* (e) outside the quantifier (recorded, not claimed): mixed int/str column labels are cast to str on save *)
 Example mixed_labels_not_preserved :
   cast_cols [LInt 1; LStr "a"] = [LStr "1"; LStr "a"].
 Proof. vm_compute. reflexivity. Qed.
